@@ -1,7 +1,7 @@
 import Ecal.Model.Parser
 /-!
 Model of parser/prettyprinter.go at the CURRENT commit of /repo (with the repairs 58be508 — bracket rule
-`ppNeedsBrackets` — and 4f48871 — empty block comment).  Text is a byte list.
+`ppNeedsBrackets` —, 4f48871 — empty block comment — and 9f2e979 — `if true {…}` is not an else branch).  Text is a byte list.
 `Out.panic` = a Go panic (missing template, nil token, bad slice …), `Out.nilNode` = the
 "Nil pointer in AST" error.
 -/
@@ -228,12 +228,15 @@ partial def visit (ast? : Option Node) (parent : Option Node) : Except PErr Txt 
     let mut out : Txt := s "if " ++ guard 1
     let mut i := 0
     while i < n do
-      let g := kids.getD i default
-      let first ← (match g.children.head? with
-        | some (some x) => pure x.name
-        | some none => throw PErr.panic
-        | none => throw PErr.panic)
-      if i + 2 = n && first = "true" then
+      -- Go: `i > 0 && i+2 == len(ast.Children) && ast.Children[i].Children[0].Name == NodeTRUE` (fix 9f2e979:
+      -- the first branch is never an else branch); the guard's child is only read when the first two hold
+      let isElse : Bool ← (if i > 0 && i + 2 = n then
+          (match (kids.getD i default).children.head? with
+            | some (some x) => pure (x.name == "true")
+            | some none => throw PErr.panic
+            | none => throw PErr.panic)
+        else pure false)
+      if isElse then
         out := out ++ s " else {\n" ++ c ps (i + 2) ++ s "}"
       else if i > 0 then
         out := out ++ s " elif " ++ guard (i + 1)
